@@ -9,7 +9,7 @@ from __future__ import annotations
 import json
 import random
 
-from . import common, rel, tlc
+from . import common, rel, tlc, tree
 
 TIERS = {
     "quick": dict(depth=2, sample=140, sim_num=30, sim_depth=3, per_prog=10, shapes=2),
@@ -158,4 +158,6 @@ def run(tier="quick", seed=0, replay_path=None):
     for tr in good[2:300:120]:
         chk.sample({"q": tr["q"], "labels": [o["label"] for o in tr["obs"]][:6]})
     chk.assumptions += ["reference = the same program with default knobs through compute()", "p2p shuffle not available in the sandbox (tasks and disk only)"]
+    if not replay_path:
+        chk.traces += tree.run_component(chk, tier)
     return chk.finish()
